@@ -263,7 +263,7 @@ func vrtSSO(pf vrtSSOProfile) {
 	// history (content profile, C06 / C15): nothing | an earlier AuthnRequest of the same service
 	// provider, served under another host by a provider that derives its issuer from the request
 	hist := 0
-	if pf.content && !pf.acs && (vrtProp("C06") || vrtProp("C15")) && doc != nil && vrtBool("hist.sso") {
+	if pf.content && !pf.acs && (vrtProp("C06") || vrtProp("C15")) && doc != nil && !vrtBool("hist.none") {
 		hist = 4
 		vrtHostIssuer = true
 		vrtEarlierEntityID = string(doc.EntityID)
